@@ -2374,3 +2374,34 @@ Proof.
     assert (Hstd : In (fst o) std_codes) by (unfold std_codes; cbn [In] in *; tauto).
     specialize (Hs (fst o) Hstd). unfold has_code in Hs. rewrite N.eqb_refl in Hs. discriminate.
 Qed.
+
+(* ================================================================== RewriteV6Lifetimes leaves every other option alone *)
+Definition lifetime_code (c : N) : bool := ((c =? 3) || (c =? 25) || (c =? 5) || (c =? 26))%bool.
+Lemma rw_opt_other : forall v dp pref valid o, lifetime_code (fst o) = false -> rw_opt v dp pref valid o = o.
+Proof.
+  intros v dp pref valid o H. unfold lifetime_code in H. repeat (apply orb_false_iff in H; destruct H as [H ?]).
+  repeat match goal with E : (_ =? _) = false |- _ => apply N.eqb_neq in E end.
+  apply (proj1 (proj2 (proj2 (rw_opt_facts v dp pref valid o)))); assumption.
+Qed.
+(* any message with a well-formed option list (IA_TA, unknown codes, payloads that merely look like an IA, IA inside IA,
+   anything): same number of options, and every option whose code is not 3, 25, 5 or 26 sits at the same position with the
+   same bytes *)
+Lemma v6_other_options_identical : forall v h4 os pref valid, length h4 = 4%nat -> Forall opt6_ok os ->
+  exists os', rewrite_v6_lifetimes v (h4 ++ enc6 os) pref valid = h4 ++ enc6 os' /\ length os' = length os /\
+    (forall i o, nth_error os i = Some o -> lifetime_code (fst o) = false -> nth_error os' i = Some o) /\
+    (forall i o o', nth_error os i = Some o -> nth_error os' i = Some o' -> fst o' = fst o /\ length (snd o') = length (snd o)).
+Proof.
+  intros v h4 os pref valid L4 Hok. destruct (rewrite_v6_lifetimes_spec v h4 os pref valid L4 Hok) as [dp E].
+  exists (map (rw_opt v dp pref valid) os). split; [exact E|]. split; [apply map_length|]. split.
+  - intros i o Hi Hc. rewrite nth_error_map, Hi. cbn [option_map]. f_equal. apply rw_opt_other. exact Hc.
+  - intros i o o' Hi Hi'. rewrite nth_error_map, Hi in Hi'. cbn [option_map] in Hi'. injection Hi' as <-.
+    destruct (rw_opt_facts v dp pref valid o) as [A [B _]]. split; assumption.
+Qed.
+Lemma v6_identity_without_lifetime_options : forall v h4 os pref valid, length h4 = 4%nat -> Forall opt6_ok os ->
+  Forall (fun o => lifetime_code (fst o) = false) os ->
+  rewrite_v6_lifetimes v (h4 ++ enc6 os) pref valid = h4 ++ enc6 os.
+Proof.
+  intros v h4 os pref valid L4 Hok Hn. destruct (rewrite_v6_lifetimes_spec v h4 os pref valid L4 Hok) as [dp E]. rewrite E. do 2 f_equal. clear E.
+  induction os as [|o r IH]; [reflexivity|]. inversion Hn; subst. inversion Hok; subst. cbn [map]. rewrite rw_opt_other by assumption.
+  f_equal. apply IH; assumption.
+Qed.
